@@ -7,6 +7,7 @@ D = 'photutils/segmentation/deblend.py::'
 
 
 def register(reg):
+    register_label_map(reg)
     box = '(0, array.shape[0]), (0, array.shape[1])'
     reg.add(Contract(
         target=D + '_get_labels', props=['C06'],
@@ -54,4 +55,33 @@ def register(reg):
                  ('np.arange(len(labels)) + start_label', 'np.arange(len(labels)) + start_label - 1'),
                  ('relabel_map[labels] = np.arange(len(labels)) + start_label',
                   'relabel_map[labels[1:]] = np.arange(len(labels) - 1) + start_label')],
+    ))
+
+
+def register_label_map(reg):
+    """_update_deblend_label_map "reports a parent -> children map that matches the pixels": after
+    the consecutive relabelling every parent keeps *its own* children, each renamed through the
+    relabel map, in the same order (two parents with different numbers of children shown; the
+    loop body is the same for any number)."""
+    reg.add(Contract(
+        target=D + '_update_deblend_label_map', props=['C06'], tag='per-parent',
+        params={'deblend_label_map': ('dict', {3: ('arr', 1, 'int'), 7: ('arr', 1, 'int')}),
+                'relabel_map': ('arr', 1, 'int')},
+        requires=['forall(lambda m: 0 <= deblend_label_map[3][m] and deblend_label_map[3][m] < '
+                  'relabel_map.shape[0], (0, deblend_label_map[3].shape[0]))',
+                  'forall(lambda m: 0 <= deblend_label_map[7][m] and deblend_label_map[7][m] < '
+                  'relabel_map.shape[0], (0, deblend_label_map[7].shape[0]))'],
+        ensures=[
+            ('same-parents', 'len(result) == 2'),
+            ('each-parent-keeps-its-own-children-renamed',
+             'result[3].shape == old_deblend_label_map[3].shape and '
+             'result[7].shape == old_deblend_label_map[7].shape and '
+             'forall(lambda m: result[3][m] == relabel_map[old_deblend_label_map[3][m]], '
+             '(0, result[3].shape[0])) and '
+             'forall(lambda m: result[7][m] == relabel_map[old_deblend_label_map[7][m]], '
+             '(0, result[7].shape[0]))'),
+        ],
+        mutants=[('relabel_map[new_labels]', 'relabel_map[new_labels - 1]'),
+                 ('deblend_label_map[old_label] = relabel_map[new_labels]',
+                  'deblend_label_map[old_label] = new_labels')],
     ))
